@@ -7,7 +7,7 @@ use super::{
     models::{FieldAttribute, FieldAttributeBuilder, TypeAttributeBuilder},
     TraitHandler,
 };
-use crate::{common::tools::DiscriminantType, Trait};
+use crate::{common::tools::discriminants_from_ast, Trait};
 
 pub(crate) struct OrdEnumHandler;
 
@@ -28,20 +28,27 @@ impl TraitHandler for OrdEnumHandler {
 
         let mut cmp_token_stream = proc_macro2::TokenStream::new();
 
-        let discriminant_type = DiscriminantType::from_ast(ast)?;
+        let discriminants = discriminants_from_ast(ast)?;
+
+        let mut discriminant_arms_token_stream = proc_macro2::TokenStream::new();
 
         let mut arms_token_stream = proc_macro2::TokenStream::new();
 
         let mut all_unit = true;
 
         if let Data::Enum(data) = &ast.data {
-            for variant in data.variants.iter() {
+            for (variant, discriminant) in data.variants.iter().zip(discriminants) {
                 let _ = TypeAttributeBuilder {
                     enable_flag: false, enable_bound: false
                 }
                 .build_from_attributes(&variant.attrs, traits)?;
 
                 let variant_ident = &variant.ident;
+
+                let discriminant = proc_macro2::Literal::i128_suffixed(discriminant);
+
+                discriminant_arms_token_stream
+                    .extend(quote!( Self::#variant_ident { .. } => #discriminant, ));
 
                 let built_in_cmp: Path = syn::parse2(quote!(::core::cmp::Ord::cmp)).unwrap();
 
@@ -209,9 +216,10 @@ impl TraitHandler for OrdEnumHandler {
             cmp_token_stream.extend(quote!(::core::cmp::Ordering::Equal));
         } else {
             let discriminant_cmp = quote! {
-                unsafe {
-                    ::core::cmp::Ord::cmp(&*<*const _>::from(self).cast::<#discriminant_type>(), &*<*const _>::from(other).cast::<#discriminant_type>())
-                }
+                ::core::cmp::Ord::cmp(
+                    &match self { #discriminant_arms_token_stream },
+                    &match other { #discriminant_arms_token_stream },
+                )
             };
 
             cmp_token_stream.extend(if all_unit {
